@@ -135,9 +135,10 @@ def scale_fn(g):
         proj.write_tasks(deps + [cspec])
         cout = proj.out / cpkg / "c.task"
         D = "combine %s over 12 dependencies, second_run=%s" % (cspec.ident, second)
-        for r in range(2 if second else 1):
+        recorded = {}
+        for r in range(4 if second else 1):
             kern = fakeos.Kernel(graphs.SymSched(g, all_ok=True, on_spawn=graphs.output_writer), clock=fakeos.Clock(lambda i, r=r: 1000.0 + 10 * r))
-            res = hrun.invoke(cli_run.main, hrun.run_ns(task_identifier=cspec.ident, again=(r == 1)), str(proj.root), kern, timeout=120)
+            res = hrun.invoke(cli_run.main, hrun.run_ns(task_identifier=cspec.ident, again=(r >= 1)), str(proj.root), kern, timeout=120)
             if isinstance(res.status, str):
                 g.require(False, "combine:crash:" + res.status[4:], "%s; %s" % (res.exc, D))
             g.require(res.status == 0, "combine:run-failed", "run %d status=%r; %s" % (r, res.status, D))
@@ -147,7 +148,54 @@ def scale_fn(g):
                 g.require(os.path.lexists(link) and os.path.realpath(link) == os.path.realpath(written[d.name]), "combine:entry-wrong-or-missing",
                           "run %d: %s -> %s, expected %s; %s" % (r, d.name, os.path.realpath(link) if os.path.lexists(link) else None, written[d.name][-30:], D))
             g.require(sorted(os.listdir(cout)) == sorted(d.name for d in deps), "combine:entry-wrong-or-missing", "entries %s; %s" % (sorted(os.listdir(cout)), D))
+            # directories of versions recorded in earlier invocations are never written into
+            for path_, dig_ in recorded.items():
+                g.require(hrun.tree_digest(path_) == dig_, "combine:recorded-version-directory-modified",
+                          "run %d changed %s; %s" % (r, os.path.relpath(path_, str(proj.out)), D))
+            for row in proj.index_rows():
+                pkg_, nm_ = row[0][2:].rsplit(":", 1)
+                path_ = str(proj.out / pkg_ / ("%s.task.%d" % (nm_, row[1])))
+                recorded.setdefault(path_, hrun.tree_digest(path_))
         g.goal("combine over more than eight dependencies")
+        return {"nontrivial": True, "sample": {"case": D}}
+    finally:
+        proj.cleanup()
+
+
+def two_combines_fn(g):
+    """Two combine tasks in one invocation, the second over a task that depends on the first: every entry of both."""
+    import conductor.cli.run as cli_run
+    pkg = ("", "p", "p/q")[g.choose("pkg", 3)]
+    epkg = pkg if g.flag("later_task_in_same_package") else "other"
+    runs = 1 + g.choose("extra_runs_again", 3)
+    kinds = ("run_experiment", "run_command")
+    d1 = TaskSpec("d1", kinds[g.choose("kd1", 2)], [], pkg=pkg)
+    d2 = TaskSpec("d2", kinds[g.choose("kd2", 2)], [], pkg=pkg)
+    c1 = TaskSpec("c1", "combine", [d1.ident, d2.ident], pkg=pkg)
+    e = TaskSpec("e", "run_experiment", [c1.ident], pkg=epkg)
+    c2 = TaskSpec("c2", "combine", [d1.ident, e.ident] if g.flag("d1_first") else [e.ident, d1.ident], pkg=pkg)
+    specs = [d1, d2, c1, e, c2]
+    proj = hrun.Project()
+    try:
+        proj.write_tasks(specs)
+        D = "d1,d2 in //%s; c1=combine(d1,d2); e in //%s depends on c1; c2=combine(%s); %d run(s)" % (pkg, epkg, c2.deps, runs)
+        for r in range(runs):
+            kern = fakeos.Kernel(graphs.SymSched(g, all_ok=True, on_spawn=graphs.output_writer), clock=fakeos.Clock(lambda i, r=r: 1000.0 + 10 * r))
+            res = hrun.invoke(cli_run.main, hrun.run_ns(task_identifier=c2.ident, again=(r >= 1)), str(proj.root), kern, timeout=60)
+            if isinstance(res.status, str):
+                g.require(False, "combine:crash:" + res.status[4:], "%s; %s" % (res.exc, D))
+            g.require(res.status == 0, "combine:run-failed", "run %d status=%r; %s" % (r, res.status, D))
+            written = {p.name: p.env["COND_OUT"] for p in kern.tasks()}
+            for comb, members in ((c1, (d1, d2)), (c2, (d1, e))):
+                cout = proj.out / comb.pkg / (comb.name + ".task")
+                for d in members:
+                    link = cout / d.name
+                    g.require(os.path.lexists(link) and os.path.realpath(link) == os.path.realpath(written[d.name]), "combine:entry-wrong-or-missing",
+                              "run %d: %s/%s -> %s, expected %s; %s" % (r, comb.name, d.name, os.path.realpath(link) if os.path.lexists(link) else None,
+                                                                        written[d.name][-30:], D))
+                g.require(sorted(os.listdir(cout)) == sorted(d.name for d in members), "combine:entry-wrong-or-missing",
+                          "%s has entries %s; %s" % (comb.name, sorted(os.listdir(cout)), D))
+        g.goal("two combine steps in one invocation")
         return {"nontrivial": True, "sample": {"case": D}}
     finally:
         proj.cleanup()
@@ -160,7 +208,10 @@ def spaces(tier):
                 "empty or not, combine task in {root, p}, pre-existing entry {none, dir, file, link}, one or two runs (second with --again)",
                 depth=7, goals=goals, outside=["dangling links made by hand", ">3 dependencies"])]
     sp.append(Space("scale-twelve-deps", scale_fn, "a combine over 12 dependencies (experiments and commands in 4 packages), combine in the root or "
-                    "3 packages deep, one or two runs", depth=3, goals=["combine over more than eight dependencies"]))
+                    "3 packages deep, one or four runs (--again)", depth=3, goals=["combine over more than eight dependencies"]))
+    sp.append(Space("two-combines-one-invocation", two_combines_fn, "5 tasks: combine c1 over d1, d2; experiment e depending on c1; combine c2 over d1 and e; "
+                    "kinds of d1/d2, packages {root, p, p/q} x {same, other}, listing order, 1..3 runs (--again)", depth=8,
+                    goals=["two combine steps in one invocation"]))
     if tier == "thorough":
         sp.append(Space("deps3", make(3), "1..3 dependencies, same dimensions", depth=8, tiers=("thorough",)))
     return sp
